@@ -1,5 +1,5 @@
 CONSTANTS SessYears = {2000}
-          DayMod = 73
+          DayMod = 122
           MaxLen = 2
           Rot = 1
 INIT Init
